@@ -368,7 +368,7 @@ def run(ctx):
                 out.append((ev, None if q.viol else q.canon(), list(q.viol)))
             return out
 
-        r = bfs.bfs(expand, build(cfg, []).canon(), depth, deadline=time.time() + ctx.pick(900, 900))
+        r = bfs.bfs(expand, build(cfg, []).canon(), depth, deadline=time.time() + ctx.pick(900, 600))
         tot_s += r["states"]
         tot_t += r["transitions"]
         summary.append({"messages_per_direction": nmsgs, "fault_budget": faults, "depth_completed": r["depth"], "closed": r["closed"], "states": r["states"], "capped": r["capped"]})
